@@ -474,6 +474,27 @@ func collectStores(cell ssa.Value, path []string, out *[]storeCand) {
 					}
 				}
 			}
+		case *ssa.Slice:
+			// x[:] of an array cell handed to a callee that may fill it (rand.Read(buf[:]))
+			if x.X == cell {
+				if srefs := x.Referrers(); srefs != nil {
+					for _, sr := range *srefs {
+						if cc := CallOf(sr); cc != nil {
+							if b, isB := cc.Value.(*ssa.Builtin); isB && b.Name() != "copy" {
+								continue
+							}
+							for i, arg := range cc.Args {
+								if arg == ssa.Value(x) {
+									if b, isB := cc.Value.(*ssa.Builtin); isB && b.Name() == "copy" && i != 0 {
+										continue
+									}
+									*out = append(*out, storeCand{ins: sr, rest: path, cc: cc, cell: cell})
+								}
+							}
+						}
+					}
+				}
+			}
 		}
 	}
 }
